@@ -356,7 +356,7 @@ def check_property(prop, tier, seed):
             real_reps = [x for x in reps if x[0] != "miri-unsupported"]
             # an abandoned (forgotten) history leaks on purpose: a leak report next to a failed
             # predicate of another property is a consequence of that failure, not a finding
-            if real_reps and all(x[0] in ("miri-leak", "lsan") for x in real_reps) and ("NOTE other-property" in text or "VIOLATION property=" in text):
+            if real_reps and all(x[0] in ("miri-leak", "lsan") for x in real_reps) and ("NOTE other-property" in text or "VIOLATION property=" in text or "FIV-ABANDONED-HISTORIES" in text):
                 notes.append(f"leak report ignored in {r.name}: history abandoned after a predicate failure")
                 real_reps = []
                 reps = []
